@@ -161,11 +161,13 @@ def cmd_unit(args):
                                       "failures": [{"fn": f["fn"], "msg": f["msg"], "clause": (f.get("clause") or "")[:200],
                                                     "failed_requires": (f.get("failed_requires") or "")[:200]} for f in R.failures],
                                       "undecided": [{"fn": f.get("fn"), "msg": f["msg"][:200]} for f in R.undecided]}))
-        return 0 if (R.status == "ok" and not R.failures) else 1
+        return 0 if (R.status == "ok" and not R.failures and not getattr(A, "lost", None)) else 1
     print(f"unit {R.name}: status={R.status} verified_fns={len(R.verified_fns)} failures={len(R.failures)} "
           f"undecided={len(R.undecided)} canary_failed={R.canary_failed} wall={R.wall:.1f}s")
     if R.reason:
         print("reason:", R.reason[:3000])
+    if getattr(A, "lost", None):
+        print("LOST-ANCHOR (contracted functions no longer found, left out):", sorted(set(A.lost)))
     for f in R.failures:
         print(fmt_failure(f))
         if args.verbose:
@@ -176,7 +178,7 @@ def cmd_unit(args):
             print(f["rendered"])
     if args.verbose:
         print("fn times (ms):", json.dumps(R.fn_times, indent=1))
-    return 0 if (R.status == "ok" and not R.failures) else 1
+    return 0 if (R.status == "ok" and not R.failures and not getattr(A, "lost", None)) else 1
 
 
 def cmd_rebaseline(args):
